@@ -177,7 +177,7 @@ func runOpNoBegin(w *world.World, op Op) Outcome {
 	return runOpWith(w, op, false)
 }
 
-var propC10 = vt.Prop[HistoryCase]{ID: "C10", Test: "TestC10", Gen: genC10, Run: runC10}
+var propC10 = vt.Prop[HistoryCase]{ID: "C10", Test: "TestC10", Gen: genC10, Run: runC10, Retry: timeoutFinding}
 
 func TestC10(t *testing.T) { topT = t; propC10.Check(t) }
 
